@@ -53,7 +53,7 @@ ASSUMPTIONS = [
     "fixed cells are exempt from 'every cell at the former maximum depth' because C02 forbids cutting them",
 ]
 
-MAX_CELLS = 400
+MAX_CELLS = 1200
 
 
 # --------------------------------------------------------------------------- generator
@@ -64,14 +64,15 @@ def _gen_t(r):
 
 def gen_case(r, index, tier):
     deep = tier == "thorough"
-    desc = designs.gen_allocation(r, offsets=True, max_cells=16 if deep else 10, extreme_scales=True)
+    big = r.chance(0.08 if deep else 0.02)   # now and then a large layout, refined deeper
+    desc = designs.gen_allocation(r, offsets=True, max_cells=(40 if big else 16 if deep else 10), extreme_scales=True)
     n = r.randint(1, 14 if deep else 8)
     ops = []
     for _ in range(n):
         k = r.below(100)
         on = r.below(8)
         if k < 28:
-            ops.append({"op": "refine", "on": on, "t": _gen_t(r), "levels": r.weighted([(1, 6), (2, 3), (3, 1)])})
+            ops.append({"op": "refine", "on": on, "t": _gen_t(r), "levels": r.weighted([(1, 6), (2, 3), (3, 1)] + ([(4, 2), (5, 1)] if big else []))})
         elif k < 40:
             ops.append({"op": "uniform", "on": on})
         elif k < 54:
